@@ -477,9 +477,13 @@ def reachable_calls(db, fi, depth=4):
 
 def bind_call(fi, args, kwargs):
     """The values a call binds to the parameters of `fi` (positional then keyword): {parameter name: value}."""
+    from ..core.interp import Obj
     params = list(fi.params)
+    args = list(args)
     if fi.cls is not None and params and params[0] in ('self', 'cls') and 'staticmethod' not in getattr(fi, 'decorators', ()):
         params = params[1:]
+        if args and isinstance(args[0], Obj):
+            args = args[1:]          # the receiver of a bound method call
     out = {}
     for p, a in zip(params, args):
         out[p] = a
